@@ -799,6 +799,13 @@ func Run(spec Spec, waitOrphans bool) (*Obs, *Sim, error) {
 						case <-time.After(waitLimit):
 							return fmt.Errorf("%w: context of pill %d before respawn", ErrInconclusive, pr.p.Idx)
 						}
+					} else if pr.p.Fate == "orphan" {
+						// not this check's business whether it completes (C07's), but if it does its watcher sends a
+						// probe to the id: give it the chance to do so before the id belongs to somebody else
+						select {
+						case <-pr.done:
+						case <-time.After(time.Second):
+						}
 					}
 				}
 				if err := fence(); err != nil {
@@ -840,7 +847,7 @@ func Run(spec Spec, waitOrphans bool) (*Obs, *Sim, error) {
 	for _, pr := range pills {
 		grace := 5 * time.Second
 		if pr.p.Fate == "orphan" && !waitOrphans {
-			grace = 0
+			grace = time.Second // see the respawn case: let a completing watcher finish before the log is read
 		}
 		if obs.Diverged != "" {
 			grace = 200 * time.Millisecond
@@ -850,6 +857,15 @@ func Run(spec Spec, waitOrphans bool) (*Obs, *Sim, error) {
 			obs.PillDone[pr.p.Idx] = true
 		case <-time.After(grace):
 			obs.PillDone[pr.p.Idx] = false
+		}
+	}
+	// the watchers' probes may have gone to a live (respawned) target: flush its inbox, so that the log
+	// is not read in the middle of a delivery
+	if sim.Alive && obs.Diverged == "" && len(pills) > 0 {
+		syncN++
+		e.Send(w.pid, SyncMsg{N: syncN})
+		if err := w.await(pidStr, false, sim.StoppedEv, syncN, "the sentinel behind the watchers' probes"); err != nil && !errors.Is(err, ErrDiverged) {
+			return nil, nil, err
 		}
 	}
 	// bystander + process still alive
